@@ -1355,7 +1355,11 @@ class ValidatorSet(TlbScheme):
         if tag == b'\x12':
             type_ = 'validators_ext'
             total_weight = cell_slice.load_uint(64)
-        list = cell_slice.load_dict(16, value_deserializer=ValidatorDescr.deserialize)
+        if tag == b'\x12':
+            list = cell_slice.load_dict(16, value_deserializer=ValidatorDescr.deserialize)  # HashmapE 16 ValidatorDescr
+        else:
+            # validators#11 stores its list inline: list:(Hashmap 16 ValidatorDescr)
+            list = cell_slice.load_hashmap(16, value_deserializer=ValidatorDescr.deserialize)
 
         return cls(
             type_=type_,
